@@ -436,3 +436,7 @@ def replay(case):
         if isinstance(gd.get("di", [None])[0] if gd.get("di") else None, str):
             gd = {"nodes": gd["nodes"], "di": [e.split("->") for e in gd["di"]], "bi": [e.split("<->") for e in gd["bi"]]}
         run_roundtrip(_C(), gd)
+
+
+def install_for_suite():
+    install()
